@@ -1355,6 +1355,12 @@ class SymWalker:
                 for s in states:
                     self.env = s.env
                     it = self.sub(st.iter)
+                    if isinstance(it, ast.Name) and getattr(self.canon, "assign_of", None) is not None:
+                        # a module-level TUPLE of rows (a table the loop walks: `for limit, prefix, codec in _ENCODINGS`) is the
+                        # sequence of its rows, like the literal written in place
+                        tb_ = self.canon.assign_of(it)
+                        if isinstance(tb_, ast.Tuple) and 0 < len(tb_.elts) <= 8 and all(isinstance(r_, (ast.Tuple, ast.Constant, ast.Name)) for r_ in tb_.elts):
+                            it = copy.deepcopy(tb_)
                     if isinstance(it, (ast.Tuple, ast.List)) and 0 < len(it.elts) <= 8 and not any(isinstance(x, ast.Starred) for x in it.elts):
                         self._calls(st.iter, st, s.reach)
                         frame = LoopCtx(st, it, norm(st.target), s.reach)
